@@ -47,13 +47,13 @@ theorem ite_some_none_g3 {j0 : JobObj} {d : PIndex} {P : List PodObj} {N : List 
 that its status does not name (with a readable task) -/
 def NoUnrec (s : Sys) (jo : JobObj) : Prop :=
   ∀ p ∈ s.podCache, p.jobLabel = some jo.uid → p.ownerUid = some jo.uid →
-    (∀ r ∈ jo.job.status.tasks, r.name ≠ p.pod.name) → podTask p = none
+    (∀ r ∈ jo.job.status.tasks, r.name ≠ p.pod.name) → podTask s.clock p = none
 
 /-- … then `adoptUnrecordedTasks` adds nothing -/
 theorem adoptUnrecordedTasks_eq_of_noUnrec {s : Sys} {jo : JobObj} (h : NoUnrec s jo) (tasks : List Task) :
     adoptUnrecordedTasks s jo tasks = tasks := by
   unfold adoptUnrecordedTasks
-  have : List.filterMap podTask ((sortPods s.podCache).filter (fun p =>
+  have : List.filterMap (podTask s.clock) ((sortPods s.podCache).filter (fun p =>
       p.jobLabel = some jo.uid && !(tasks.any (·.name = p.pod.name)) &&
       !(jo.job.status.tasks.any (·.name = p.pod.name)) && p.ownerUid = some jo.uid)) = [] := by
     rw [List.filterMap_eq_nil_iff]
@@ -76,15 +76,15 @@ theorem adoptUnrecordedTasks_refsOK {j0 : JobObj} {sp : Sys} (ctx : PassCtx j0 s
   · intro t ht
     rcases (hmem t).mp ht with h | ⟨p, hp, hpt, _⟩
     · exact hs0.sem t h
-    · exact (newTask_sem ctx (jo := jo) (P0 := []) (names := [t.name]) ⟨by simp, p, hpt, Or.inr ⟨hp, by rw [hu]; exact ctx.owned.cache p hp⟩⟩).1
+    · exact (newTask_sem ctx (jo := jo) (P0 := []) (names := [t.name]) ⟨by simp, p, _, hpt, Or.inr ⟨hp, by rw [hu]; exact ctx.owned.cache p hp⟩⟩).1
   · intro t ht hf
     rcases (hmem t).mp ht with h | ⟨p, hp, hpt, _⟩
     · exact hs0.fin t h hf
-    · exact (newTask_sem ctx (jo := jo) (P0 := []) (names := [t.name]) ⟨by simp, p, hpt, Or.inr ⟨hp, by rw [hu]; exact ctx.owned.cache p hp⟩⟩).2.1 hf
+    · exact (newTask_sem ctx (jo := jo) (P0 := []) (names := [t.name]) ⟨by simp, p, _, hpt, Or.inr ⟨hp, by rw [hu]; exact ctx.owned.cache p hp⟩⟩).2.1 hf
   · intro t ht hf
     rcases (hmem t).mp ht with h | ⟨p, hp, hpt, _⟩
     · exact hs0.src t h hf
-    · exact hNc _ ((newTask_sem ctx (jo := jo) (P0 := []) (names := [t.name]) ⟨by simp, p, hpt, Or.inr ⟨hp, by rw [hu]; exact ctx.owned.cache p hp⟩⟩).2.2 hf)
+    · exact hNc _ ((newTask_sem ctx (jo := jo) (P0 := []) (names := [t.name]) ⟨by simp, p, _, hpt, Or.inr ⟨hp, by rw [hu]; exact ctx.owned.cache p hp⟩⟩).2.2 hf)
   · refine hok0.mono (fun t ht => (hmem t).mpr (Or.inl ht)) ?_
     intro t ht
     rcases (hmem t).mp ht with h | ⟨p, hp, hpt, _, _, _, hnr⟩
@@ -420,7 +420,7 @@ theorem finalizerTasks_refsOK {j0 : JobObj} {sp : Sys} (ctx : PassCtx j0 sp) (N 
   have htg0 := tasksForRefsConfirmed_good (jo := jo) ctx.pods hu rj.status.tasks hg.nodup
   have hsem0 := tasksForRefsConfirmed_refsOK (jo := jo) ctx hu N rj.status.tasks hg.nodup hrs hfin hN
   have hmem : ∀ t, t ∈ finalizerTasks sp jo rj ↔ t ∈ tasksForRefsConfirmed sp jo rj.status.tasks ∨
-      ∃ p ∈ sp.podCache, podTask p = some t ∧ p.jobLabel = some jo.uid ∧ p.ownerUid = some jo.uid ∧
+      ∃ p ∈ sp.podCache, podTask sp.clock p = some t ∧ p.jobLabel = some jo.uid ∧ p.ownerUid = some jo.uid ∧
         (∀ t' ∈ tasksForRefsConfirmed sp jo rj.status.tasks, t'.name ≠ p.pod.name) ∧
         (∀ r ∈ rj.status.tasks, r.name ≠ p.pod.name) := Furiko.JobCtlPlan.mem_finalizerTasks sp jo rj
   have hT0n : ∀ t ∈ tasksForRefsConfirmed sp jo rj.status.tasks, t.name ∈ refNames rj := by
@@ -435,15 +435,15 @@ theorem finalizerTasks_refsOK {j0 : JobObj} {sp : Sys} (ctx : PassCtx j0 sp) (N 
   · intro t ht
     rcases (hmem t).mp ht with h | ⟨p, hp, hpt, _⟩
     · exact hsem0.1.sem t h
-    · exact (newTask_sem ctx (jo := jo) (P0 := []) (names := [t.name]) ⟨by simp, p, hpt, Or.inr ⟨hp, by rw [hu]; exact ctx.owned.cache p hp⟩⟩).1
+    · exact (newTask_sem ctx (jo := jo) (P0 := []) (names := [t.name]) ⟨by simp, p, _, hpt, Or.inr ⟨hp, by rw [hu]; exact ctx.owned.cache p hp⟩⟩).1
   · intro t ht hf
     rcases (hmem t).mp ht with h | ⟨p, hp, hpt, _⟩
     · exact hsem0.1.fin t h hf
-    · exact (newTask_sem ctx (jo := jo) (P0 := []) (names := [t.name]) ⟨by simp, p, hpt, Or.inr ⟨hp, by rw [hu]; exact ctx.owned.cache p hp⟩⟩).2.1 hf
+    · exact (newTask_sem ctx (jo := jo) (P0 := []) (names := [t.name]) ⟨by simp, p, _, hpt, Or.inr ⟨hp, by rw [hu]; exact ctx.owned.cache p hp⟩⟩).2.1 hf
   · intro t ht hf
     rcases (hmem t).mp ht with h | ⟨p, hp, hpt, _⟩
     · exact hsem0.1.src t h hf
-    · exact hNc _ ((newTask_sem ctx (jo := jo) (P0 := []) (names := [t.name]) ⟨by simp, p, hpt, Or.inr ⟨hp, by rw [hu]; exact ctx.owned.cache p hp⟩⟩).2.2 hf)
+    · exact hNc _ ((newTask_sem ctx (jo := jo) (P0 := []) (names := [t.name]) ⟨by simp, p, _, hpt, Or.inr ⟨hp, by rw [hu]; exact ctx.owned.cache p hp⟩⟩).2.2 hf)
   · refine hsem0.2.mono (fun t ht => (hmem t).mpr (Or.inl ht)) ?_
     intro t ht
     rcases (hmem t).mp ht with h | ⟨p, hp, hpt, _, _, _, hnr⟩
